@@ -26,7 +26,7 @@ def descsValid (T : Tables) : Option Nat → List Nat → Bool
     ok && descsValid T (some d) ds
 
 /-- fuel for expansions: generous, and checked by `C10_total` to suffice for acyclic tables -/
-def defaultFuel : Nat := 100000
+def defaultFuel : Nat := 4000000
 
 /-- `bufr_create_template(descs, nb, tbls, edition)`; `none` = NULL -/
 def createTemplate (T : Tables) (fuel : Nat) (edition : Nat) (descs : List Nat) : Except XErr Template :=
